@@ -1103,6 +1103,14 @@ class Machine:
             if ty in SIGNED:
                 return Int((1 << (bits - 1)) - 1 if what == 'MAX' else -(1 << (bits - 1)), ty)
             return Int((1 << bits) - 1 if what == 'MAX' else 0, ty)
+        fm = re.search(r'(?:<impl )?\b(f64|f32)>?::(INFINITY|NEG_INFINITY|EPSILON|MAX|MIN|NAN)$', t)
+        if fm:
+            ty, what = fm.group(1), fm.group(2)
+            vals = {'INFINITY': math.inf, 'NEG_INFINITY': -math.inf, 'NAN': math.nan,
+                    'EPSILON': 2.220446049250313e-16 if ty == 'f64' else 1.1920929e-07,
+                    'MAX': 1.7976931348623157e308 if ty == 'f64' else 3.4028234663852886e38,
+                    'MIN': -1.7976931348623157e308 if ty == 'f64' else -3.4028234663852886e38}
+            return FP(vals[what], ty)
         if t.startswith('ZeroSized: '):
             ty = t[len('ZeroSized: '):].strip()
             if ty.startswith('{closure@'):
@@ -1791,7 +1799,9 @@ class Machine:
             return MapObj(v.kind, [[self.clone(k), self.clone(x)] for k, x in v.entries])
         if isinstance(v, HeapObj):
             return HeapObj([self.clone(x) for x in v.items])
-        if isinstance(v, Iter):
+        if type(v).__name__ in ('SenderObj', 'FileObj', 'RngObj'):
+            return v
+        if isinstance(v, Iter) and type(v).__name__ != 'ReceiverObj':
             import copy
             n = copy.copy(v)
             for k, x in list(vars(n).items()):
